@@ -132,6 +132,7 @@ const (
 	fChain                // also run the "read chained on a finisher's return value" cases
 	fSeq                  // also run the "two reads on the same reusable handle" pairs
 	fCallback             // also run FindInBatches with a read on the same handle inside the callback
+	fFault                // also explore every cursor-fault point of every read path
 )
 
 func inInts(v int, set []int) bool {
@@ -166,6 +167,11 @@ func enumerate(tier string) (chains []Chain, flags []uint8, N int, gridSizes map
 
 	sizesB := []int{0, 3, 7}
 	seqSizes, seqL, seqO := []int{0, 3, N}, []int{2, -1}, []int{1, N}
+	// cursor-fault slice of grid A / D (one call order, orderings none / Order(id))
+	faultSizes, faultL, faultO := []int{0, 1, 3, 5, N}, []int{1, 2, 5, -1}, []int{1, 3, N}
+	if tier == "thorough" {
+		faultSizes, faultL, faultO = seqInts(0, N), limitVals, offsetVals
+	}
 	if tier == "thorough" {
 		sizesB = []int{0, 6, 12}
 		seqSizes, seqL, seqO = []int{0, 1, 5, N}, []int{0, 1, 3, N + 1, -1}, []int{0, 2, N, -1}
@@ -222,9 +228,16 @@ func enumerate(tier string) (chains []Chain, flags []uint8, N int, gridSizes map
 								if lay == 0 && inInts(n, seqSizes) && inInts(cd, []int{0, 3}) && one(lo[0], seqL) && one(lo[1], seqO) {
 									f |= fSeq | fCallback
 								}
+								if lay == 0 && cd < 4 && inInts(n, faultSizes) && one(lo[0], faultL) && one(lo[1], faultO) {
+									f |= fFault
+								}
 							}
 							if strings.HasPrefix(g.name, "D:") {
 								f = fHandles | fCallback
+								one := func(vs []int, set []int) bool { return len(vs) == 0 || inInts(vs[0], set) }
+								if inInts(n, faultSizes) && one(lo[0], faultL) && one(lo[1], faultO) {
+									f |= fFault
+								}
 							}
 							flags = append(flags, f)
 							gridSizes[g.name]++
@@ -301,6 +314,7 @@ type stats struct {
 type checker struct {
 	run      *mc.Run
 	st       stats
+	fst      faultStats
 	distinct mc.Set // distinct non-trivial chains
 	samples  *mc.Samples
 	tier     string
@@ -602,6 +616,20 @@ func (ck *checker) evalChain(w *worker, c Chain, flags uint8) {
 		}
 	}
 
+	// ---- cursor faults: every (query, row) point of every read path ------------------
+	if flags&fFault != 0 {
+		for _, pi := range active {
+			p := paths[pi]
+			if p.Kind == kFIB {
+				for _, b := range []int{1, 2, 3, ck.N + 1} {
+					ck.evalFaults(w, e, c, p, b)
+				}
+			} else {
+				ck.evalFaults(w, e, c, p, 0)
+			}
+		}
+	}
+
 	// ---- two reads started from the same reusable handle ------------------------
 	if flags&fSeq != 0 {
 		for _, hk := range []string{hSession, hCtx} {
@@ -639,6 +667,21 @@ func main() {
 		w := newWorker()
 		e := w.env(c.Chain.N)
 		p := paths[pi]
+		if c.Mode == mFault {
+			base, points, _ := runWithRowHook(e, c, true)
+			out, _, fired := runWithRowHook(e, c, false)
+			kind, _, fails := faultVerdict(c, base, out, fired)
+			fmt.Printf("case: %s\nfault points of the fault-free run (query,row): %v\nfault-free: %s\nwith fault: %s\npanic/leak: %q\nverdict: %s\nstatements:\n  %s\n", c.String(), points, describe(p, base.o), describe(p, out.o), out.panicMsg, kind, joinEvents(out.events))
+			for _, f := range fails {
+				fmt.Printf("VIOLATES: %s\n", strings.ReplaceAll(f, "\n", "\n    "))
+			}
+			if len(fails) > 0 {
+				fmt.Printf("input-side tags: %v\n", tags(c))
+				os.Exit(1)
+			}
+			fmt.Println("no violation")
+			return
+		}
 		out := execCase(e, c, true)
 		ref, refOK := referenceFind(e, c.Chain)
 		fmt.Printf("case: %s\ntable (key order): %s\nexpected window: %s\n", c.String(), show(rowKeys(tableRows(c.Chain.N))), show(rowKeys(c.Chain.expectFind())))
@@ -745,6 +788,16 @@ func main() {
 		floor("count_then_page_cases", st.countThenPage, 5000)
 		floor("fib_callback_read_cases", st.callbackCases, 5000)
 		floor("fib_callback_read_cases_multi_batch", st.callbackMulti, 1000)
+		fs := &ck.fst
+		floor("cursor_fault_states", fs.states, 1000)
+		floor("cursor_fault_transitions", fs.transitions, 5000)
+		floor("cursor_fault_ended_in_error", fs.erred, 2000)
+		floor("cursor_fault_truncating_and_reported", fs.truncating, 1000)
+		floor("cursor_fault_points_inside_result_set", fs.midResult, 1000)
+		floor("cursor_fault_points_in_later_queries", fs.multiQuery, 500)
+		if fs.erred+fs.identical != fs.transitions {
+			run.HarnessError("cursor faults: %d transitions but %d classified", fs.transitions, fs.erred+fs.identical)
+		}
 		floor("distinct_outcomes", int64(outcomes.Len()), 200)
 		floor("distinct_batch_shapes", int64(shapes.Len()), 20)
 	}
@@ -760,37 +813,44 @@ func main() {
 	run.Assume("reads chained on a finisher's return value are checked only for the pairs gorm documents: Count -> any read ('total + page') and Find -> Count. Left out as ill-defined: chaining on the handle returned by First/Take/Last (it keeps the finder's own LIMIT 1 and ORDER BY), Pluck/Select-Scan (keeps the SELECT list), Scan/Rows (no reusable handle), FindInBatches (keeps its ORDER BY and the last cursor condition), Find -> Find/First (keeps Dest-derived state); a fresh (non-Session) chain used for two separate statements (documented as not reusable)")
 	run.Assume("outside the alphabet: user orderings contradicting key order for FindInBatches; Limit(0)/Offset(0) as the later value of an override pair; FindInBatches into maps; Group/Distinct/Joins; callbacks returning errors")
 	run.Finish(map[string]interface{}{
-		"evaluations":                         st.evaluations,
-		"distinct_nontrivial":                 ck.distinct.Len(),
-		"rule":                                fmt.Sprintf("N=%d. chains = table size x condition x ordering x sequence of Limit/Offset calls, grids %v (A: every single Limit in {absent,0,1..N+1,-1} x every single Offset in {absent,0..N,-1} x both call orders x all sizes 0..N x all conditions x 3 orderings; B: every override/cancel pair of one kind x a small set of the other kind x 4 call layouts; C (thorough): limit pairs x offset pairs, alternating call layout). Every chain is executed through every read path (%d path variants) and FindInBatches with every batch size 1..N+1 into []Item and (grid A) []*Item; Besides fresh chains, grid A chains (orderings none / Order(id); quick: one call order) are also run from reusable handles chain.Session(&gorm.Session{}) (all paths) and chain.WithContext(ctx) (14 representative paths), pair grids from a Session handle (6 representative paths; quick runs the pair grids with the representative paths only). Two-read cases: (1) tx := chain[.Session|.WithContext].Count(&n), then a read on tx — with the Limit/Offset calls made before Count (6 reads) and after Count on the returned handle, 'total + page' (14 reads) — and Find(&[]Item|&[]*Item|&[]map) followed by Count on the returned handle, for every single limit x offset of grid A; (2) base := chain.Session|WithContext; base -> first read (10 kinds); base -> second read (every path), on a sub-grid; both reads are judged against the same reference window; (3) base -> FindInBatches (batch sizes 1,2,3,N+1) with a read on base (First/Last/Count, and Find/Take/Pluck where the chain determines the order) issued inside every callback: batches must stay exact and every inner read is judged. Grid D: chains carrying three orderings on which all rows tie (only First/Last/FindInBatches/Count are run there), fresh, on reusable handles and with reads inside the callback. evaluations = cases executed (a case = one read, or a pair of reads). A chain is non-trivial when its expected window is non-empty and smaller than the table (condition, limit or offset really cut something); distinct = distinct such chains", N, gridSizes, len(paths)),
-		"samples":                             ck.samples.List(),
-		"exhaustive":                          exhaustive,
-		"chains":                              st.chains,
-		"chains_enumerated":                   len(chains),
-		"table_sizes":                         N + 1,
-		"path_variants":                       len(paths),
-		"distinct_outcomes":                   outcomes.Len(),
-		"distinct_batch_shapes":               shapes.Len(),
-		"fib_calls":                           st.fibCalls,
-		"fib_multi_batch":                     st.fibMultiBatch,
-		"fib_partial_last_batch":              st.fibPartialLast,
-		"fib_limit_cuts_mid_batch":            st.fibLimitCuts,
-		"fib_offset_beyond_end":               st.fibOffsetBeyond,
-		"fib_offset_inside":                   st.fibOffsetInside,
-		"finder_found":                        st.finderFound,
-		"finder_not_found":                    st.finderNotFound,
-		"count_checked_against_find":          st.countChecked,
-		"override_chains":                     st.overrideChains,
-		"cancel_chains":                       st.cancelChains,
-		"multi_row_path_checks":               st.multiChecked,
-		"single_record_dest_checks":           st.singleChecked,
-		"primitive_dest_checks":               st.primChecked,
-		"session_handle_cases":                st.sessionCases,
-		"context_handle_cases":                st.ctxCases,
-		"two_reads_same_handle_cases":         st.seqCases,
-		"read_chained_on_return_value_cases":  st.chainCases,
-		"count_then_page_cases":               st.countThenPage,
-		"fib_callback_read_cases":             st.callbackCases,
-		"fib_callback_read_cases_multi_batch": st.callbackMulti,
+		"evaluations":                           st.evaluations,
+		"distinct_nontrivial":                   ck.distinct.Len(),
+		"rule":                                  fmt.Sprintf("N=%d. chains = table size x condition x ordering x sequence of Limit/Offset calls, grids %v (A: every single Limit in {absent,0,1..N+1,-1} x every single Offset in {absent,0..N,-1} x both call orders x all sizes 0..N x all conditions x 3 orderings; B: every override/cancel pair of one kind x a small set of the other kind x 4 call layouts; C (thorough): limit pairs x offset pairs, alternating call layout). Every chain is executed through every read path (%d path variants) and FindInBatches with every batch size 1..N+1 into []Item and (grid A) []*Item; Besides fresh chains, grid A chains (orderings none / Order(id); quick: one call order) are also run from reusable handles chain.Session(&gorm.Session{}) (all paths) and chain.WithContext(ctx) (14 representative paths), pair grids from a Session handle (6 representative paths; quick runs the pair grids with the representative paths only). Two-read cases: (1) tx := chain[.Session|.WithContext].Count(&n), then a read on tx — with the Limit/Offset calls made before Count (6 reads) and after Count on the returned handle, 'total + page' (14 reads) — and Find(&[]Item|&[]*Item|&[]map) followed by Count on the returned handle, for every single limit x offset of grid A; (2) base := chain.Session|WithContext; base -> first read (10 kinds); base -> second read (every path), on a sub-grid; both reads are judged against the same reference window; (3) base -> FindInBatches (batch sizes 1,2,3,N+1) with a read on base (First/Last/Count, and Find/Take/Pluck where the chain determines the order) issued inside every callback: batches must stay exact and every inner read is judged. (4) cursor faults (bound 1): on a slice of grids A and D (quick: sizes {0,1,3,5,N} x limit {absent,1,2,5,-1} x offset {absent,1,3,N}; thorough: all sizes x every single limit x every single offset, one call order, orderings none / Order(id) / three tie orderings, the four base conditions) every read path (FindInBatches with batch sizes 1,2,3,N+1) is first executed fault-free with a row hook that records every (query,row) point its result sets consult (state), then once per point with the iteration failing there (transition); the call must report an error or deliver exactly the fault-free result. Grid D: chains carrying three orderings on which all rows tie (only First/Last/FindInBatches/Count are run there), fresh, on reusable handles and with reads inside the callback. evaluations = cases executed (a case = one read, or a pair of reads). A chain is non-trivial when its expected window is non-empty and smaller than the table (condition, limit or offset really cut something); distinct = distinct such chains", N, gridSizes, len(paths)),
+		"samples":                               ck.samples.List(),
+		"exhaustive":                            exhaustive,
+		"chains":                                st.chains,
+		"chains_enumerated":                     len(chains),
+		"table_sizes":                           N + 1,
+		"path_variants":                         len(paths),
+		"distinct_outcomes":                     outcomes.Len(),
+		"distinct_batch_shapes":                 shapes.Len(),
+		"fib_calls":                             st.fibCalls,
+		"fib_multi_batch":                       st.fibMultiBatch,
+		"fib_partial_last_batch":                st.fibPartialLast,
+		"fib_limit_cuts_mid_batch":              st.fibLimitCuts,
+		"fib_offset_beyond_end":                 st.fibOffsetBeyond,
+		"fib_offset_inside":                     st.fibOffsetInside,
+		"finder_found":                          st.finderFound,
+		"finder_not_found":                      st.finderNotFound,
+		"count_checked_against_find":            st.countChecked,
+		"override_chains":                       st.overrideChains,
+		"cancel_chains":                         st.cancelChains,
+		"multi_row_path_checks":                 st.multiChecked,
+		"single_record_dest_checks":             st.singleChecked,
+		"primitive_dest_checks":                 st.primChecked,
+		"session_handle_cases":                  st.sessionCases,
+		"context_handle_cases":                  st.ctxCases,
+		"two_reads_same_handle_cases":           st.seqCases,
+		"read_chained_on_return_value_cases":    st.chainCases,
+		"count_then_page_cases":                 st.countThenPage,
+		"fib_callback_read_cases":               st.callbackCases,
+		"fib_callback_read_cases_multi_batch":   st.callbackMulti,
+		"cursor_fault_states":                   ck.fst.states,
+		"cursor_fault_transitions":              ck.fst.transitions,
+		"cursor_fault_ended_in_error":           ck.fst.erred,
+		"cursor_fault_identical_result":         ck.fst.identical,
+		"cursor_fault_truncating_and_reported":  ck.fst.truncating,
+		"cursor_fault_points_inside_result_set": ck.fst.midResult,
+		"cursor_fault_points_in_later_queries":  ck.fst.multiQuery,
 	})
 }
